@@ -113,6 +113,10 @@ class Alignment:
             and version == "gfa1"):
           return gfapy.CIGAR._from_string(string, valid=valid, version=version)
       break
+    else:
+      if not first and version == "gfa2":
+        # a single integer is a trace with one element
+        return gfapy.Trace._from_string(string)
     raise gfapy.FormatError("Alignment field contains invalid data {}"
                             .format(repr(string)))
 
